@@ -77,6 +77,18 @@ def cases(tier, seed):
         progs = p1 + p2
         for i in range(0, len(progs), 8):
             yield {"named": named, "programs": progs[i:i + 8]}
+    # wide pipelines on 12 input columns: many generated names, selectors reaching column 11, three-branch unions
+    S_, M_ = ["S"], ["M"]
+    ct8 = ["CT", [[M_, [0, 1, 2, 3, 4, 5, 6, 7]]], "passthrough"]
+    wide = [["FU", ["FU", S_, ct8], M_],
+            ["CT", [[["FU", S_, M_], [1]], [S_, [11]]], "drop"],
+            ["CT", [[["FU", S_, M_], [1]], [M_, [11]]], "passthrough"],
+            ["FU", ["CT", [[S_, [0, 1, 2, 3, 4]]], "passthrough"], ["FU", S_, M_]],
+            ["P", ["FU", S_, M_], ["FU", S_, ["CT", [[S_, [0, 1, 2, 3, 4]]], "passthrough"]]],
+            ["CT", [[["FU", S_, M_], [1]], [["FU", M_, S_], [10, 11]]], "passthrough"],
+            ["FU", ["FU", S_, M_], ["FU", ct8, S_]]]
+    for i in range(0, len(wide), 2):
+        yield {"named": False, "programs": wide[i:i + 2], "ncols": 12}
 
 
 def _build(p):
@@ -245,8 +257,10 @@ def run_case(case):
             sigs.add(sig)
             viol.append({"sig": sig, "msg": msg[:1200]})
 
-    X = numpy.array([[(i * 3 + 2 * j) % 7 + 0.5 * j for j in range(3)] for i in range(8)], dtype=float)
-    df = pandas.DataFrame(X, columns=["a", "b", "c"])
+    ncols = case.get("ncols", 3)
+    names = list("abcdefghijkl")[:ncols]
+    X = numpy.array([[(i * 3 + 2 * j) % 7 + 0.5 * j + 0.1 * (j // 3) * i for j in range(ncols)] for i in range(8)], dtype=float)
+    df = pandas.DataFrame(X, columns=names)
     yreg = X.sum(axis=1)
     ycl = (numpy.arange(8) % 2)
     cnt = ntriv = skipped = 0
@@ -333,7 +347,7 @@ def run_case(case):
                 except Exception as ex:
                     bad("pipeline2str raises %s" % type(ex).__name__, "%s,%s" % (state, shape), "%s %s" % (str(ex)[:200], desc))
             # ---------------------------------------------------------------- DOT
-            schemas = [("frame", df), ("names", ["a", "b", "c"])] if case["named"] else [("array", X), ("frame", df), ("names", ["a", "b", "c"])]
+            schemas = [("frame", df), ("names", list(names))] if case["named"] else [("array", X), ("frame", df), ("names", list(names))]
             for sname, sch in schemas:
                 cond = "%s,%s,final=%s" % (sname, shape, "none" if final == "none" else "predictor")
                 try:
@@ -367,7 +381,7 @@ def run_case(case):
                 if "sch0" not in decl:
                     bad("pipeline2dot: no input schema node", cond, desc)
                     continue
-                colnames = ["a", "b", "c"] if sname != "array" else ["X0", "X1", "X2"]
+                colnames = list(names) if sname != "array" else ["X%d" % i_ for i_ in range(ncols)]
                 for cn in colnames:
                     if cn not in [t.split("> ")[-1] for t in labels["sch0"].split("|")]:
                         bad("pipeline2dot: an input column is missing from the input schema", cond, "%s %s" % (cn, desc))
@@ -380,6 +394,8 @@ def run_case(case):
                         bad("pipeline2dot: a step does not appear", cond, "%s %s\n%s" % (nm, desc, dot[:900]))
                         break
                 sinks = [n for n in g.nodes if g.out_degree(n) == 0]
+                # (a second sink = an intermediate output nobody consumes is ugly but not excluded by the statement:
+                #  only declared endpoints, acyclicity, presence of steps/columns and reachability of the outputs are)
                 reach = g.descendants("sch0")
                 lost = [n for n in sinks if n not in reach and n != "sch0"]
                 if lost or not sinks:
